@@ -814,3 +814,53 @@ def optional_attr_contradictions(P, c):
             if isinstance(x, ast.Attribute) and isinstance(x.ctx, ast.Load) and isinstance(x.value, ast.Attribute) and (x.value.attr, x.attr) in keys:
                 viol.append((fn, x))
     return beliefs, viol
+
+
+# ---- `param or default`: a configured 0 is not "not configured" ------------------------------------------------------------------
+def _falsy_default_in(fn):
+    """BoolOp(Or) nodes in fn whose first operand is a bare parameter of fn with a numeric / None / absent default, used as a value"""
+    a = fn.args
+    params = [x.arg for x in a.posonlyargs + a.args + a.kwonlyargs]
+    defaults = dict(zip([x.arg for x in (a.posonlyargs + a.args)][len(a.posonlyargs + a.args) - len(a.defaults):], a.defaults))
+    defaults.update({k.arg: d for k, d in zip(a.kwonlyargs, a.kw_defaults) if d is not None})
+    out = []
+    for x in ast.walk(fn):
+        if isinstance(x, ast.BoolOp) and isinstance(x.op, ast.Or) and isinstance(x.values[0], ast.Name) and x.values[0].id in params and x.values[0].id != 'self':
+            d = defaults.get(x.values[0].id)
+            if isinstance(d, (ast.Constant,)) and isinstance(d.value, (str, bytes)) and d.value is not None:
+                continue        # a text parameter: '' or default is the usual idiom
+            if isinstance(d, (ast.List, ast.Dict, ast.Tuple, ast.Set)):
+                continue
+            last = x.values[-1]
+            if isinstance(last, (ast.List, ast.Dict, ast.Tuple, ast.Set)) or (isinstance(last, ast.Constant) and isinstance(last.value, str)):
+                continue        # `names or []`: a container default
+            out.append(x)
+    return out
+
+
+def falsy_default_obligation(ctx, oid, class_names, what):
+    """K12 lint, expected count zero, with a positive control: no `param or default` on a numeric / optional configuration parameter of the
+    listed classes -- a configured 0 (an empty budget, capacity 0, interval 0) is falsy and would silently become the default"""
+    from .report import Ob
+    P = ctx.P
+    o = Ob(oid, 'K12', f'{what}: no `parameter or default` on a numeric or optional parameter (a configured 0 is falsy and would silently turn into the default)')
+    control = ast.parse("def f(self, capacity=None):\n    self._c = capacity or float('inf')\n").body[0]
+    o.count()
+    if len(_falsy_default_in(control)) != 1:
+        from . import AnalysisError
+        raise AnalysisError('falsy-default lint: the positive control was not recognised')
+    o.witness('positive-control')
+    n = 0
+    for cn in class_names:
+        if not P.has_cls(cn):
+            continue
+        c = P.cls(cn)
+        fns = list(c.methods.values()) + [f for pr in c.props.values() for f in pr.values()]
+        for fn in fns:
+            o.count()
+            n += 1
+            for x in _falsy_default_in(fn):
+                o.fail(P, f'{c.name}.{fn.name}', x, f'`{ast.unparse(x)}`: when `{x.values[0].id}` is 0 (or 0.0) the right-hand side is taken, so an explicit zero configuration '
+                       'behaves like "not given"; test `is None` instead', file=c.mod.path, line=x.lineno)
+    o.sample({'classes': [cn for cn in class_names if P.has_cls(cn)], 'functions_scanned': n})
+    return o
